@@ -3,7 +3,7 @@ from __future__ import annotations
 
 import numpy as np
 
-from .. import gen, reach
+from .. import gen, reach, repo
 from ..oracle import embed, refq
 
 ID = "C08"
@@ -190,8 +190,11 @@ def judge(ctx, R, A, site, tags, eig_truth=None, pow2=0):
     # ---- eigendecomposition --------------------------------------------------------
     st = site + ":eigendecomposition"
     try:
-        with np.errstate(all="ignore"):
-            lam, V = R.eigen.quaternion_eigendecomposition(Ain)
+        # call form: every third input goes through verbose=True (prints only; what is returned is judged by the same clauses)
+        vb_ = (int(np.sum(np.abs(refq.fa(A)) > 0)) + n) % 3 == 0
+        with np.errstate(all="ignore"), repo.quiet():
+            lam, V = R.eigen.quaternion_eigendecomposition(Ain, verbose=True) if vb_ else R.eigen.quaternion_eigendecomposition(Ain)
+        ctx.hit("callform:verbose_" + str(vb_))
     except Exception as e:
         ctx.check("unexpected_exception", False, site=st, tags=tags, detail={"exception": repr(e), "n": n})
         return
